@@ -7,7 +7,10 @@ Where the docstring defines the result exactly ("Sort an iterable using
 Python's sorted", "unique items are yielded in the same order as their first
 occurrence") the contract is a Python definition; where it is vague (which of
 several minimal items `min` returns, what `first` returns for an empty input)
-only the robust consequence is checked.
+only the robust consequence is checked.  "Case insensitive" (case_sensitive
+false, the default of unique/sort/groupby/min/max/dictsort) is the comparison
+of the LOWER-CASED keys, str.lower(); see the "case folding" section below for
+the inputs on which a second reading is accepted.
 
 check(name, items, kind, args, kwargs, value, S, info=None) -> None | (aspect, message)
 
@@ -151,10 +154,6 @@ def multi_getter(attribute, fold=False):
     else:
         gs = [getter(attribute, fold=fold)]
     return lambda item: [g(item) for g in gs]
-
-
-def lower(v):
-    return v.lower() if isinstance(v, str) else v
 
 
 # ------------------------------------------------------------ tests (select)
@@ -637,12 +636,13 @@ def check(name, items, kind, args, kwargs, got, S, info=None):
         info["case_sensitive"] = bool(p["case_sensitive"])
     if v is None or p["case_sensitive"] or not prof["special"]:
         return v
-    for altname, alt in ALT:
-        if contract(items, kind, p, got, S, fold=alt) is None:
-            if prof["ambiguous"]:
-                return None     # the second reading of an ambiguous input
-            return (f"case-insensitive:keys-compared-by-{altname}-not-lower-cased",
-                    v[1] + f" - the result is what comparing the {altname} form of the keys gives; "
-                           f"documented: case insensitive = strings converted to lowercase, and "
-                           f"no two of the differing keys are case variants of each other")
+    forms = [altname for altname, alt in ALT
+             if contract(items, kind, p, got, S, fold=alt) is None]
+    if forms:
+        if prof["ambiguous"]:
+            return None     # the second reading of an ambiguous input
+        return ("case-insensitive:keys-not-compared-lower-cased",
+                v[1] + f" - the result is what comparing the {' / '.join(forms)} form of the keys "
+                       f"gives; documented: case insensitive = strings converted to lowercase, "
+                       f"and no two of the differing keys are case variants of each other")
     return v
